@@ -42,3 +42,34 @@ fn headers_latest_wins<const KF: usize>() {
     std::mem::forget(t);
     kani::cover!(true, "end reached");
 }
+
+// @ob id=table_accessors unwind=6 stubs=fmt,vec tier=quick timeout=900 mem=16 bound="XRefTable::{add_entry, add_extended_entry, get_entry, get_extended_entry, is_compressed} on two arbitrary object numbers: the LAST entry added for a number is the one returned, other numbers are unaffected, is_compressed is true exactly for numbers with a compressed record"
+fn table_accessors<const KF: usize>() {
+    let a: u32 = kani::any();
+    let b: u32 = kani::any();
+    let o1: u64 = kani::any();
+    let o2: u64 = kani::any();
+    let g: u16 = kani::any();
+    let mut t = XRefTable::new();
+    assert!(t.get_entry(a).is_none() && !t.is_compressed(a), "a fresh table resolves an object");
+    t.add_entry(a, XRefEntry { offset: o1, generation: g, in_use: true });
+    t.add_entry(b, XRefEntry { offset: o2, generation: 0, in_use: false });
+    // the later add wins when a == b
+    let ea = t.get_entry(a);
+    if a == b {
+        assert!(matches!(ea, Some(e) if e.offset == o2 && !e.in_use), "re-adding an object number does not replace its entry");
+    } else {
+        assert!(matches!(ea, Some(e) if e.offset == o1 && e.generation == g && e.in_use), "adding another object number disturbs an existing entry");
+        assert!(matches!(t.get_entry(b), Some(e) if e.offset == o2 && !e.in_use), "an added entry is not returned");
+    }
+    let s: u32 = kani::any();
+    let i: u32 = kani::any();
+    t.add_extended_entry(b, XRefEntryExt { basic: XRefEntry { offset: 0, generation: 0, in_use: true }, compressed_info: Some((s, i)) });
+    assert!(t.is_compressed(b), "a compressed record is not reported");
+    assert!(a == b || !t.is_compressed(a), "an uncompressed object is reported compressed");
+    assert!(matches!(t.get_extended_entry(b), Some(x) if x.compressed_info == Some((s, i))), "the compressed record read back differs");
+    std::mem::forget(t);
+    kani::cover!(a == b, "same object number reached");
+    kani::cover!(a != b, "distinct object numbers reached");
+    kani::cover!(true, "end reached");
+}
